@@ -568,6 +568,9 @@ def body_real_e2e(i0, r1, k1):
     from xv.core import picks, untraced
     c0, req1, tok1 = picks((i0, r1, k1), (TOK, REQS, BODIES))
     with untraced():
+        from xv.core import real_stack
+        if not real_stack("wsgi"):
+            return (True, "real-unavailable")
         import json
         import os
         import subprocess
@@ -819,6 +822,9 @@ def body_real_responses(r1, r2):
     from xv.core import picks, untraced
     q1, q2 = picks((r1, r2), (RR_REQS, RR_REQS))
     with untraced():
+        from xv.core import real_stack
+        if not real_stack("wsgi"):
+            return (True, "real-unavailable")
         import json
         import os
         import subprocess
@@ -918,6 +924,9 @@ def body_real_aio_responses(r1):
     from xv.core import pick, untraced
     q1 = RR_REQS[pick(r1, len(RR_REQS))]
     with untraced():
+        from xv.core import real_stack
+        if not real_stack("aiohttp"):
+            return (True, "real-unavailable")
         import json
         import os
         import subprocess
